@@ -188,7 +188,17 @@ void submit_task(World& w, int32_t parent, uint8_t depth, vf::Rng& rng) {
   r.kind = uint8_t(rng.below(K_NUM));
   // A child that may legitimately be dropped (submitted to the global queue after stop() began) must not be a
   // coroutine: its never-resumed frame would be reported by LeakSanitizer although nothing in C07 promises otherwise.
-  if (parent >= 0 && w.cfg.type == 0 && w.cfg.lcap < 64) r.kind = uint8_t(rng.below(K_EXEC_CORO_FN));
+  // Nor may the harness hold its future: babylon asserts in ~Promise that nobody waits for a promise that is dropped
+  // unset (debug builds abort), and dropping tasks submitted after stop() began is the documented behaviour.
+  if (parent >= 0 && w.cfg.type == 0 && w.cfg.lcap < 64) r.kind = uint8_t(rng.below(K_EXEC_FN));
+#ifndef NDEBUG
+  // Refused execute() of a coroutine returns a valid future and drops the promise unset (the genuine defect reported
+  // as failed-submission:future-valid:coroutine-execute from the NDEBUG variant): with asserts on, the same defect
+  // aborts the process in ~Promise. The assert builds therefore keep to the other nine paths on refusing executors.
+  if (w.cfg.type == 3) {
+    while (r.kind == K_EXEC_CORO_FN || r.kind == K_EXEC_CORO_FUNCTOR) r.kind = uint8_t(rng.below(K_NUM));
+  }
+#endif
   r.depth = depth;
   r.parent = parent;
   r.phase = uint8_t(w.cur_phase.load(std::memory_order_relaxed));
